@@ -808,6 +808,7 @@ fn c03_configs(rng: &mut Rng, len: usize, extents: &[usize], n: usize) -> Vec<Co
         let interrupts = match rng.below(4) {
             0 => Interrupts::BeforeEvery,
             1 => Interrupts::Seeded(rng.next(), rng.range(1, 10)),
+            2 if !cfg!(miri) && rng.chance(1, 10) => Interrupts::Storm(*rng.pick(&[100usize, 1024, 1025, 4096, 70_000]), rng.below(5)),
             _ => Interrupts::None,
         };
         v.push(Config {
@@ -1234,6 +1235,19 @@ pub fn c17(ctx: &Ctx, rep: &mut Report) {
                     ro.ends = gen::LineEnd::Lf;
                 }
                 let at = rng.below(abs.recs.len());
+                if !ctx.miri && rng.chance(1, 25) {
+                    // a very long id in front of the defect: the error must carry all of it
+                    let l = *rng.pick(&[255usize, 256, 1000, 1023, 1024, 1025, 2048, 4097, 65_535, 65_536, 70_000]);
+                    let mut h: Vec<u8> = format!("r{}_{}_", ctx.shard, at).into_bytes();
+                    while h.len() < l {
+                        h.push(*rng.pick(b"abcXYZ019_-.:|"));
+                    }
+                    if rng.chance(1, 2) {
+                        h.extend_from_slice(b" some description");
+                    }
+                    abs.recs[at].head = h;
+                    rep.count("defects_behind_ids_of_255_to_70000_bytes");
+                }
                 plant_fastq(&mut rng, &abs, &ro, at)
             }
             Fmt::Fasta => {
